@@ -253,10 +253,16 @@ def _usage(case: dict, note: Note) -> Failure | None:
     with Scratch("vf_c15u_") as d:
         for n in ("a.md", "b.md"):
             (d / n).write_text(text, encoding="utf-8")
+        (d / "docs").mkdir()
+        for n in ("c.md", "e.md"):
+            (d / "docs" / n).write_text(text, encoding="utf-8")
         before = tree_snapshot(d)
         for argv, stdin in (
             ([], None),
             (["-o", "x.md", "a.md", "b.md"], None),
+            (["-o", "x.md", "docs"], None),  # one argument that expands to several files
+            (["-o", "x.md", "docs/*.md"], None),
+            (["-o", "x.md", "."], None),
             (["--inplace", "-"], text),
             (["--auto"], None),
             (["--list-files"], None),
